@@ -270,6 +270,18 @@ def multivar_specs() -> list[Spec]:
         out.append(Spec(f"gen_{k}_has_children", m, cls, "has_children", [], BOOL))
     for cls, k in (("ContinuousVariable", "cont"), ("DiscreteVariable", "disc"), ("PermutationVariable", "perm")):
         out.append(Spec(f"gen_{k}_size", m, cls, "size", [], NAT))
+    # random sampling: each class's randomize() is a function of its declared fields and of numpy draws alone (C07: nothing else is read, nothing is written;
+    # C13: one draw per child, in order).  numpy's draws are the oracles draw_uniform / draw_choice / draw_perm.
+    out += [
+        Spec("gen_cont_randomize", m, "ContinuousVariable", "randomize", [("self.lower_bound", "lower_bound", X), ("self.upper_bound", "upper_bound", X)], X,
+             attrs={"idioms": {"np.random.uniform(self.lower_bound, self.upper_bound)": ("(draw_uniform {self.lower_bound} {self.upper_bound})", X)}}),
+        Spec("gen_disc_randomize", m, "DiscreteVariable", "randomize", [("self.choices", "choices", LIST(C))], NAT,
+             attrs={"idioms": {"np.random.choice(range(0, len(self.choices)))": ("(draw_choice (length {self.choices}))", NAT)}}),
+        Spec("gen_perm_randomize", m, "PermutationVariable", "randomize", [("self.items", "items", LIST("L"))], LIST(NAT),
+             attrs={"idioms": {"np.random.permutation(range(0, len(self.items))).tolist()": ("(draw_perm (length {self.items}))", LIST(NAT))}}),
+    ]
+    for cls, k in (("ContinuousMultiVariable", "cmv"), ("MultiObjectiveVariable", "mov"), ("DiscreteMultiVariable", "dmv"), ("BinaryVariable", "bin")):
+        out.append(Spec(f"gen_{k}_randomize", m, cls, "randomize", [CH], LIST(COORD), attrs={"calls": {"v.randomize": lambda arg: ("(randomize1 v)", COORD)}}))
     return out
 
 
@@ -324,7 +336,8 @@ def regenerate(repo: Path) -> dict:
     emit_group(repo, "GenTask.v", "From Coq Require Import List ZArith Bool Arith.\nFrom PV Require Import Xnum Select PyLib Argsort Vars.\nImport ListNotations.\n",
                "", task_specs(), status)
     emit_group(repo, "GenMultiVar.v", "From Coq Require Import List ZArith Bool Arith.\nFrom PV Require Import Xnum Select PyLib Argsort Vars.\nImport ListNotations.\n",
-               "Variable C : Type.\n", multivar_specs(), status)
+               "Variable C : Type.\nVariable L : Type.\nVariable draw_uniform : xnum -> xnum -> xnum.\nVariable draw_choice : nat -> nat.\n"
+               "Variable draw_perm : nat -> list nat.\nVariable randomize1 : svar -> coord.\n", multivar_specs(), status)
     import ast as _ast
     try:
         mt = _ast.parse((repo / "pyvolutionary" / "models.py").read_text())
